@@ -682,7 +682,9 @@ fn scenarios(thorough: bool, rng: &mut Rng) -> Vec<Scen> {
     };
 
     // --- StartTLS refused with a non-zero code
-    let mut rcs: Vec<(u64, u8)> = vec![(1, 24), (2, 24), (52, 24), (80, 24), (4096, 24), (53, 24), (2147483647, 24), (4294967295, 24), (13, 1)];
+    // every code other than 0 is a refusal - in particular 10 (referral), which the crate's `non_error()` helpers accept
+    // (twice, so that it meets both variants below: server goes silent / server offers the handshake all the same)
+    let mut rcs: Vec<(u64, u8)> = vec![(1, 24), (2, 24), (52, 24), (80, 24), (4096, 24), (53, 24), (2147483647, 24), (4294967295, 24), (13, 1), (10, 24), (10, 24), (14, 24), (8, 24), (3, 24), (4, 24)];
     let extra = if thorough { 40 } else { 4 };
     for _ in 0..extra {
         rcs.push((rng.range(1, 4294967295), 24));
